@@ -174,7 +174,7 @@ def build_program(rs):
                 # Mechanism): it adds a marker of its own and may declare an inherited one again with another default
                 dns = {}
                 for attr, default in c.get("resets", {}).items():
-                    if attr not in src.get("resets", {}) or src["resets"][attr] != default:
+                    if attr not in src.get("resets", {}) or not same_value(src["resets"][attr], default):  # (0 == False in Python)
                         dns[attr] = will_reset_to(NO_TARGET if default == "<NO_TARGET>" else default)
                 comp_classes[n] = type(f"Comp_{n}", (comp_classes[c["same_as"]],), dns)
             for attr in list(c.get("resets", {})) + list(src.get("base_resets", {})) + list(src.get("plain", {})):
